@@ -32,6 +32,10 @@ var alphabet = append(ls.SenderAlphabet(5),
 	ls.SMsg{Name: "StrayData", Bytes: []byte{0x41}},
 	ls.SMsg{Name: "StrayF7", Bytes: []byte{0xF7}},
 	ls.SMsg{Name: "Continue", Bytes: []byte{0xFB}},
+	ls.SMsg{Name: "UndefinedFD", Bytes: []byte{0xFD}}, // undefined real-time bytes
+	ls.SMsg{Name: "TickF9", Bytes: []byte{0xF9}},
+	ls.SMsg{Name: "UndefinedF4", Bytes: []byte{0xF4}}, // undefined system common
+	ls.SMsg{Name: "Reset", Bytes: []byte{0xFF}},
 )
 
 var tempi = []float64{120, 20, 61.5, 400}
